@@ -1352,4 +1352,36 @@ example :
     peg cp [97, 98, 97, 98] 11 (.ref 0) 0 = some (.ok (.list [.str [97], .list [.str [98], .str [97, 98]]]) 4) := by
   refine ⟨by rfl, by rfl, by rfl⟩
 
+/-! ## C17 – an expression moved into a helper function (nesting too deep for Python) -/
+
+open X in
+/-- **C17 (spilled helpers, names layer).**  When an expression is nested too deeply, the generator
+    moves it into a helper function `_function_N(_ctx, _text, _pos, *sorted free names)` and calls it
+    in place with the caller's locals of those names (`Expression.functionalize`, the same mechanism
+    as for argument expressions).  On a well-scoped program the helper, run in a frame that holds
+    nothing but those values, produces the outcome that lexical scoping gives the expression where
+    it stands - which is also what the expression compiled in place produces.  (The caller's locals
+    are out of the helper's reach, so the names in scope are trivially left as they were.) -/
+theorem C17_spilled_helper_same_outcome (P : XProgram) (inp : List Nat) (hP : wsProgram P = true)
+    (fuel : Nat) (e : XExpr) (Γ : List Name) (L : Locals) (ρ : SEnv) (p : Nat) (r : Res)
+    (hws : ws Γ e = true) (hag : Agree Γ L ρ) (h : xpeg P inp fuel e ρ p = some r) :
+    ∃ vals F' L', capture L (captured e) = some vals ∧
+      xgen P inp fuel e ((captured e).zip vals) p = some (r, F') ∧
+      xgen P inp fuel e L p = some (r, L') := by
+  obtain ⟨vals, hc, hrel⟩ := hag.closure e hws
+  obtain ⟨hws', _, hag'⟩ := hrel.frame
+  obtain ⟨F', h1, _⟩ := xgen_sim P inp (wsProgram_iff P hP) fuel e (captured e) _ ρ p r hws' hag' h
+  obtain ⟨L', h2, _⟩ := xgen_sim P inp (wsProgram_iff P hP) fuel e Γ L ρ p r hws hag h
+  exact ⟨vals, F', L', hc, h1, h2⟩
+
+-- non-vacuity: `let xa = "a" in [xa-as-value, "b"]`: the body, spilled, is handed `xa` and nothing else
+open X in
+example :
+    let P : XProgram := { rules := [], templates := [], pyf := fun _ vs => vs.headD .none, app := fun _ v => v, truthy := fun _ => true }
+    let body : XExpr := .seq [.py ⟨0, ["xa"]⟩, .lit [98]]
+    captured body = ["xa"] ∧
+    capture [("zz", .val (.str [122])), ("xa", .val (.str [97]))] (captured body) = some [.val (.str [97])] ∧
+    (xgen P [97, 98] 5 body ((captured body).zip [.val (.str [97])]) 1).map (·.1) = some (.ok (.list [.str [97], .str [98]]) 2) := by
+  refine ⟨by rfl, by rfl, by rfl⟩
+
 end Sourcer
